@@ -135,8 +135,16 @@ def _format(obj, format_spec=""):
     with NoTracing():
         is_int = isinstance(obj, B.SymbolicInt)
         spec = core.realize(format_spec)
+        # an ordinary object without a __format__ of its own: object.__format__(x, "") is str(x).
+        # The stock model deep-realises the object first (every symbolic field, one path per
+        # value); calling its own __str__ under tracing keeps the fields symbolic.
+        plain = (not is_int and not isinstance(obj, B.CrossHairValue)
+                 and type(obj).__format__ is object.__format__
+                 and type(obj).__str__ is not object.__str__)
     if is_int and spec in ("", "d"):
         return obj.__repr__()
+    if plain and spec == "":
+        return str(obj)
     return _orig_format(obj, format_spec)
 
 
